@@ -33,7 +33,8 @@ static void lookups(S& s, const std::vector<double>& x, const std::string& gridc
 
 int main(int argc, char** argv) {
   Args ar = parse(argc, argv); quiet_gsl();
-  const double AB[][2] = {{0, 1}, {-3, 5}, {1, 1e4}, {1e-3, 7.5}, {2, 2 + 1e-9}, {1000, std::nextafter(1000.0, 2000.0)}, {2.5e-3, std::nextafter(std::nextafter(2.5e-3, 1.0), 1.0)}, {6e9, 6e9 + 3e-6}, {-7.5, std::nextafter(-7.5, 0.0)}, {1e-5, 1e305}, {1e-10, 1e300}, {0.25, 1.5e308}, {3e-9, 7e-9}};   // incl. a and b one or two ulp apart
+  const double AB[][2] = {{0, 1}, {-3, 5}, {1, 1e4}, {1e-3, 7.5}, {2, 2 + 1e-9}, {1000, std::nextafter(1000.0, 2000.0)}, {2.5e-3, std::nextafter(std::nextafter(2.5e-3, 1.0), 1.0)}, {6e9, 6e9 + 3e-6}, {-7.5, std::nextafter(-7.5, 0.0)}, {1e-5, 1e305}, {1e-10, 1e300}, {0.25, 1.5e308}, {3e-9, 7e-9},
+                          {1.5e308, 1.5e308 + 3 * 1.99584030953472e292}, {1e308, 1e308 + 5 * 1.99584030953472e292}, {-1.7e308, -1.7e308 + 4 * 1.99584030953472e292}, {1e308, 1.7e308}};   // huge ends a few ulps apart (1 ulp = 2^971)   // incl. a and b one or two ulp apart
   unsigned nxmax = ar.reduced ? 12 : 65;
   for (unsigned nx = 2; nx <= nxmax; nx++) {
     for (auto& ab : AB) for (int lg = 0; lg < 2; lg++) {
